@@ -36,7 +36,7 @@ func c13Env() map[string]any {
 		"n": 5, "k": 2, "f": 1.5, "s": "str", "e": "", "t": true, "b": false, "ns": "42",
 		"sp1": "a b", "sp2": "a  b", "up": "A  b",
 		// variables whose names strconv would take for a boolean or a float
-		"T": 2, "nan": 4, "F": "eff", "eq3": "a===b", "ne3": "a!==b", "amp2": "a && b", "q3": "a ? b : c",
+		"T": 2, "nan": 4, "F": "eff", "zp": "010", "zip": "08540", "eq3": "a===b", "ne3": "a!==b", "amp2": "a && b", "q3": "a ? b : c",
 		"m":  map[string]any{"k": "mk", "l": []any{"x", "y"}, "n": 7},
 		"l":  []int{10, 20},
 		"st": c13Struct{Field: "SF", Num: 3},
@@ -515,6 +515,12 @@ func c13Stages() []c13Stage {
 			if _, err := fmt.Sscan(v.S, &i); err == nil && fmt.Sprint(i) == v.S {
 				return i, true
 			}
+			// zero-padded decimal digits (ids, zip codes) are decimal numbers
+			if d := strings.TrimLeft(v.S, "0"); d != "" && d != v.S && strings.Trim(d, "0123456789") == "" {
+				if _, err := fmt.Sscan(d, &i); err == nil {
+					return i, true
+				}
+			}
 		}
 		return 0, false
 	}
@@ -556,6 +562,7 @@ func c13Stages() []c13Stage {
 		{"addn(T)", func(v c13V) (c13V, bool) { i, ok := num(v); return c13V{T: "int", I: i + 2}, ok }},
 		{"addn(nan)", func(v c13V) (c13V, bool) { i, ok := num(v); return c13V{T: "int", I: i + 4}, ok }},
 		{"prefix(F)", func(v c13V) (c13V, bool) { s, ok := str(v); return c13V{T: "string", S: "eff" + s}, ok }},
+		{`addn("010")`, func(v c13V) (c13V, bool) { i, ok := num(v); return c13V{T: "int", I: i + 10}, ok }},
 		{`addn("4")`, func(v c13V) (c13V, bool) { i, ok := num(v); return c13V{T: "int", I: i + 4}, ok }},
 		{"shout", func(v c13V) (c13V, bool) { s, ok := str(v); return c13V{T: "string", S: strings.ToUpper(s) + "!"}, ok }},
 		{`prefix("p-")`, func(v c13V) (c13V, bool) { s, ok := str(v); return c13V{T: "string", S: "p-" + s}, ok }},
@@ -593,6 +600,7 @@ func init() {
 			inits := []c13E{
 				{Src: "n", V: c13V{T: "int", I: 5}}, {Src: "s", V: c13V{T: "string", S: "str"}}, {Src: "ns", V: c13V{T: "string", S: "42"}},
 				{Src: "t", V: c13V{T: "bool", B: true}}, {Src: "e", V: c13V{T: "string", S: ""}}, {Src: "zz", V: c13V{T: "nil"}}, {Src: "m.k", V: c13V{T: "string", S: "mk"}},
+				{Src: "zp", V: c13V{T: "string", S: "010"}}, {Src: "zip", V: c13V{T: "string", S: "08540"}}, {Src: `"007"`, V: c13V{T: "string", S: "007"}},
 				// a literal or a function call as the head of a pipe
 				{Src: `"abc"`, V: c13V{T: "string", S: "abc"}}, {Src: `'q r'`, V: c13V{T: "string", S: "q r"}}, {Src: "7", V: c13V{T: "int", I: 7}},
 				{Src: "double(n)", V: c13V{T: "int", I: 10}}, {Src: "shout(s)", V: c13V{T: "string", S: "STR!"}},
